@@ -89,11 +89,12 @@ class GS:
 
 
 class ProgGen:
-    def __init__(self, rng, profile: Profile, rom: str = "low"):
+    def __init__(self, rng, profile: Profile, rom: str = "low", usermap=None):
         self.rng = rng
         self.p = profile
         self.rom = rom
-        self.bus = busmodel.builtin(rom)
+        self.usermap = usermap
+        self.bus = busmodel.usermap(usermap) if usermap else busmodel.builtin(rom)
         self.n_label = 0
         self.n_const = 0
         self.n_scope = 0
@@ -163,6 +164,10 @@ class ProgGen:
 
     def ram_address(self) -> int:
         rng = self.rng
+        if self.usermap:
+            r = rng.choice(self.bus.ram_ranges())
+            bank = rng.randint(r.first, r.last)
+            return (bank << 16) | (0xFFFF - rng.randint(0, 5) if rng.random() < 0.3 else rng.randint(0, 0xFF00))
         k = rng.random()
         if k < 0.3:
             return 0x7EFFFF - rng.randint(0, 5)
@@ -588,6 +593,8 @@ class ProgGen:
                 skel.insert(rng.randint(0, len(skel)), {"k": "call", "m": rng.choice(self.macros)})
                 ncalls += 1
         ir = list(head)
+        if self.usermap:
+            ir = [{"k": "map", "spec": sp} for sp in self.usermap] + ir
         ir.append({"k": "org", "a": self.rom_address()})
         # macro definitions come first (they must precede their applications); bodies are filled with the
         # root's planned names visible
@@ -605,12 +612,46 @@ class ProgGen:
                     if level == 1 and run and run[0]["k"] == "include":
                         continue
                     ir[i:j] = [{"k": "include", "f": name, "b": run}]
-        return {"rom": self.rom, "ir": ir, "files": self.files}
+        case = {"rom": self.rom, "ir": ir, "files": self.files}
+        if self.usermap:
+            case["usermap"] = self.usermap
+        return case
 
 
-def generate(rng, profile: Profile, rom: str | None = None):
+def random_usermap(rng):
+    """1-3 ROM ranges (some with an equal-length mirror) + optionally a RAM range, disjoint banks, by construction"""
+    specs = []
+    cursor = rng.randint(0, 30)
+    ident = 1
+    for _ in range(rng.randint(1, 3)):
+        length = rng.choice([4, 8, 16, 32])
+        win = rng.choice(["hi32", "full64"])
+        mirror = rng.random() < 0.5
+        need = length * (2 if mirror else 1) + 3
+        if cursor + need > 250:
+            break
+        spec = {"id": ident, "first": cursor, "last": cursor + length - 1, "win": win, "ram": False, "mirror": None}
+        cursor += length + rng.randint(0, 3)
+        if mirror:
+            spec["mirror"] = [cursor, cursor + length - 1]
+            cursor += length
+        specs.append(spec)
+        ident += 1
+        cursor += rng.randint(0, 20)
+    if not specs:
+        specs = [{"id": 1, "first": 0, "last": 15, "win": "hi32", "ram": False, "mirror": None}]
+    if rng.random() < 0.6 and cursor + 2 < 256:
+        specs.append({"id": ident, "first": cursor, "last": cursor + 1, "win": "full64", "ram": True, "mirror": None})
+    return specs
+
+
+def generate(rng, profile: Profile, rom: str | None = None, usermap=None):
     rom = rom or rng.choice(["low", "high"])
-    return ProgGen(rng, profile, rom).program()
+    if usermap and not any(sp.get("ram") for sp in usermap) and profile.reloc_ram:
+        import copy
+        profile = copy.copy(profile)
+        profile.reloc_ram = False
+    return ProgGen(rng, profile, rom, usermap).program()
 
 
 def strip_private(ir):
